@@ -183,3 +183,21 @@ pub fn push_char(s: &mut String, c: char) {
         v.set_len(len + 1);
     }
 }
+
+/// A deliberate *cut*, not a model: replaces the crate-private `ExtensionsMap::try_from_iter` in the
+/// byte-level glue harnesses of C13.  For an exhausted iterator it returns what the real function
+/// returns (decided by `c13_extmap_exhausted`); every path on which subtags are left for the extension
+/// parser is ended with `assume(false)`.  What remains under the solver is the real `parse_locale`
+/// glue (split, permissive language-identifier parse, hand-over, `Locale` construction) on all inputs
+/// that carry no extension - the inputs the first clause of C13 is about.  Inputs with extensions are
+/// outside these harnesses (C03 frames).
+pub fn ext_cut<'a>(
+    iter: &mut std::iter::Peekable<impl Iterator<Item = &'a [u8]>>,
+) -> Result<unic_locale_impl::extensions::ExtensionsMap, unic_locale_impl::parser::ParserError> {
+    if iter.peek().is_none() {
+        Ok(unic_locale_impl::extensions::ExtensionsMap::default())
+    } else {
+        kani::assume(false);
+        unreachable!()
+    }
+}
